@@ -1,4 +1,4 @@
 SPECIFICATION Spec
 INVARIANTS C15_Yields C15_Increasing
-PROPERTIES C15_StaysDone C15_Terminates
+PROPERTIES C15_StaysDone C15_Terminates C15_ImplRefines
 CHECK_DEADLOCK FALSE
